@@ -7,6 +7,14 @@
 //      G<n>:<k>      task_group: run n tasks of k work, wait        S   idle until every other thread is blocked (workers fall asleep)
 //      P<q>:<v> / O<q>  blocking push / pop on bounded queue q      M<m>:<k>  tbb::mutex lock, work, unlock
 //      R<m>:<k> / X<m>:<k>  tbb::rw_mutex read / write section      A<a>:<k>  arena a execute(k work)       W<k> work
+//      M/R/X<m>:<k>:99  the section keeps the lock until every other thread is blocked or finished (waiters are then asleep when it is released)
+//      M/R/X<m>:<k>:<j+1>  the section additionally waits (harness level) until thread j has finished its program: at most one such
+//                    wait per program, j has no queue role and never touches that lock, so the program still cannot deadlock
+//      F<q>          blocking push of an element whose copy constructor throws (the slot it drew stays behind as an invalid entry)
+//      D<a>:<n>:<k>  only with par=1: enqueue one task into arena a, then run a task_group of n tasks whose bodies block until that
+//                    enqueued task has run (the single mandatory worker must go to the arena with the enqueued task), wait
+// cfg collide=1: every tbb::mutex / rw_mutex object is placed at an address that maps to the same entry of the library's address-waiter
+//                table (index formula of src/tbb/address_waiter.cpp replicated; if it changes the objects merely stop colliding).
 // The generator only produces programs that cannot deadlock at user level: pushes and pops of a queue are balanced and a
 // thread has at most one queue role; locks are never nested.  So "no runnable thread" / "spin fix-point" = lost wake-up.
 #include "oneapi/tbb/task_group.h"
@@ -24,23 +32,29 @@ bool H_TSO = true;
 std::string h_gen(Src& s) {
     int par = s.range(1, 4); if (par == 1 && drv_flag("--no-soft0")) par = 2;   // assertion flavour: known finding C02-update-allotment-assert
     int nt = s.range(1, 4); if (nt == 1 && s.flip()) nt = 2;
+    bool locks = drv_flag("--locks");      // focused leg: sleeping locks at colliding addresses, hold-and-wait sections
+    if (locks && nt < 3) nt = 3 + (int)s.choose(2);
     int na = 1 + (int)s.weighted({ 4, 3, 1 }); int nq = nt >= 2 ? (int)s.weighted({ 3, 4, 1 }) : 0; int nm = (int)s.choose(3), nrw = (int)s.choose(2);
+    if (locks) { nq = (int)s.choose(2); nm = 1 + (int)s.choose(2); nrw = (int)s.choose(2); if (nm + nrw < 2) nm = 2; }
     bool fin = s.coin(4);
     std::string cfg = "cfg par=" + std::to_string(par) + " fin=" + std::to_string(fin) + " arenas=";
     for (int i = 0; i < na; i++) { int mc = s.range(1, 3); int res = (int)s.choose(2); if (res > mc) res = mc; cfg += (i ? "," : "") + std::to_string(mc) + ":" + std::to_string(res); }
     cfg += " queues="; for (int i = 0; i < nq; i++) cfg += (i ? "," : "") + std::to_string(s.range(1, 2)); if (!nq) cfg += "-";
-    cfg += " mutexes=" + std::to_string(nm) + " rwmutexes=" + std::to_string(nrw);
+    cfg += " mutexes=" + std::to_string(nm) + " rwmutexes=" + std::to_string(nrw) + " collide=" + std::to_string((nm + nrw >= 2) ? (locks ? 1 : (int)s.coin(2)) : 0);
     std::vector<std::vector<std::string>> ops(nt);
     auto rnd_ops = [&](int t, int n) {
         for (int k = 0; k < n; k++) {
-            switch (s.weighted({ 5, 3, 3, 2, nm ? 2u : 0u, nrw ? 2u : 0u, 3, 1 })) {
+            switch (s.weighted({ locks ? 1u : 5u, locks ? 1u : 3u, locks ? 1u : 3u, locks ? 0u : 2u, nm ? (locks ? 8u : 2u) : 0u, nrw ? (locks ? 5u : 2u) : 0u, locks ? 0u : 3u, 1, (par == 1 && !locks) ? 3u : 0u })) {
             case 0: ops[t].push_back("E" + std::to_string(s.choose((uint32_t)na)) + ":" + std::to_string(s.range(1, 3)) + ":" + std::to_string(s.range(0, 6))); if (s.flip()) ops[t].push_back("B"); break;
             case 1: ops[t].push_back("G" + std::to_string(s.range(1, 4)) + ":" + std::to_string(s.range(0, 8))); break;
             case 2: ops[t].push_back("S"); break;
             case 3: ops[t].push_back("A" + std::to_string(s.choose((uint32_t)na)) + ":" + std::to_string(s.range(0, 8))); break;
-            case 4: ops[t].push_back("M" + std::to_string(s.choose((uint32_t)nm)) + ":" + std::to_string(s.range(0, 6))); break;
-            case 5: ops[t].push_back(std::string(s.flip() ? "X" : "R") + std::to_string(s.choose((uint32_t)nrw)) + ":" + std::to_string(s.range(0, 6))); break;
+            // in the focused leg some sections are long enough (in decision points) for a waiter to use up its bounded spin (5 pauses + 32 yields) and go to sleep
+            // ":99" = the section keeps the lock until every other thread is blocked or finished (so whoever wants this lock is asleep when it is released)
+            case 4: ops[t].push_back("M" + std::to_string(s.choose((uint32_t)nm)) + ":" + std::to_string(s.range(0, 6)) + (s.coin(locks ? 2 : 4) ? ":99" : "")); break;
+            case 5: ops[t].push_back(std::string(s.flip() ? "X" : "R") + std::to_string(s.choose((uint32_t)nrw)) + ":" + std::to_string(s.range(0, 6)) + (s.coin(locks ? 2 : 4) ? ":99" : "")); break;
             case 6: ops[t].push_back("B"); break;
+            case 8: ops[t].push_back("D" + std::to_string(s.choose((uint32_t)na)) + ":" + std::to_string(s.range(1, 3)) + ":" + std::to_string(s.range(0, 4))); break;
             default: ops[t].push_back("W" + std::to_string(s.range(1, 8)));
             }
         }
@@ -51,10 +65,31 @@ std::string h_gen(Src& s) {
     for (int q = 0; q < nq; q++) {
         std::vector<int> freeT; for (int t = 0; t < nt; t++) if (!role[t]) freeT.push_back(t);
         if (freeT.size() < 2) break;
-        int a = freeT[s.choose((uint32_t)freeT.size())]; int b; do { b = freeT[s.choose((uint32_t)freeT.size())]; } while (b == a);
+        uint32_t ia = s.choose((uint32_t)freeT.size()), ib = s.choose((uint32_t)freeT.size() - 1); if (ib >= ia) ib++; int a = freeT[ia], b = freeT[ib];
         role[a] = role[b] = 1; int m = s.range(1, 4);
         for (int i = 0; i < m; i++) { ops[a].insert(ops[a].begin() + (long)s.choose((uint32_t)ops[a].size() + 1), "P" + std::to_string(q) + ":" + std::to_string(a * 100 + i)); }
         for (int i = 0; i < m; i++) { ops[b].insert(ops[b].begin() + (long)s.choose((uint32_t)ops[b].size() + 1), "O" + std::to_string(q)); }
+        // at most ONE failing push per queue: it draws a ticket, throws, and leaves an invalid entry for the consumers to skip.  The entry keeps
+        // occupying capacity until a pop passes it (known finding C09-dead-slot-capacity), so a second failing push behind it could block for ever
+        // on an empty queue once the balanced pops are used up; with one, every later push is passed by the pop that takes its item.
+        int nf = (int)s.weighted({ 3, 2 });
+        for (int i = 0; i < nf; i++) { ops[a].insert(ops[a].begin() + (long)s.choose((uint32_t)ops[a].size() + 1), "F" + std::to_string(q)); }
+    }
+    // at most one hold-and-wait: a lock section of thread i that waits for thread j, where j has no queue role and never touches that lock
+    if (nt >= 2 && (nm || nrw) && (locks ? !s.coin(4) : s.coin(2))) {
+        std::vector<std::pair<int, int>> secs;
+        for (int t = 0; t < nt; t++) for (int k = 0; k < (int)ops[t].size(); k++) if ((ops[t][k][0] == 'M' || ops[t][k][0] == 'X' || ops[t][k][0] == 'R') && std::count(ops[t][k].begin(), ops[t][k].end(), ':') == 1) secs.push_back({ t, k });
+        if (!secs.empty()) {
+            auto pr = secs[s.choose((uint32_t)secs.size())]; std::string& op = ops[pr.first][pr.second];
+            bool rw = op[0] != 'M'; int m = atoi(op.c_str() + 1);
+            std::vector<int> cand;
+            for (int j = 0; j < nt; j++) {
+                if (j == pr.first || role[j]) continue; bool uses = false;
+                for (auto& o2 : ops[j]) { bool rw2 = o2[0] == 'X' || o2[0] == 'R'; if ((o2[0] == 'M' || rw2) && rw2 == rw && atoi(o2.c_str() + 1) == m) uses = true; }
+                if (!uses) cand.push_back(j);
+            }
+            if (!cand.empty()) op += ":" + std::to_string(cand[s.choose((uint32_t)cand.size())] + 1);
+        }
     }
     std::string o = cfg + "\n";
     for (int t = 0; t < nt; t++) { o += "t " + std::to_string(t); for (auto& x : ops[t]) o += " " + x; o += "\n"; }
@@ -62,11 +97,14 @@ std::string h_gen(Src& s) {
 }
 
 // ------------------------------------------------------------------ interpreter
-static std::vector<tbb::task_arena*> A; static std::vector<tbb::concurrent_bounded_queue<int>*> Q; static std::vector<tbb::mutex*> M; static std::vector<tbb::rw_mutex*> RW;
+struct QE; static std::vector<tbb::task_arena*> A; static std::vector<tbb::concurrent_bounded_queue<QE>*> Q; static std::vector<tbb::mutex*> M; static std::vector<tbb::rw_mutex*> RW;
 static std::vector<std::vector<std::string>> g_ops; static int g_nt;
 static std::vector<long> enq_submitted, enq_done;           // per thread
 static long n_tasks_run = 0, n_other_thread = 0, n_pushed = 0, n_popped = 0, n_lock_waits = 0; static int holders_m[8], writers_rw[8], readers_rw[8];
 static const char* g_phase = "run";
+static std::vector<char> g_finished; static long n_hold_waits = 0, n_failed_pushes = 0, n_dep_groups = 0;
+struct QE { int v; QE(int x = 0) : v(x) {} QE(const QE& o) : v(o.v) { if (o.v == -12345) throw std::runtime_error("element copy failed"); } QE& operator=(const QE& o) { v = o.v; return *this; } };
+static void hold_wait(int d) { if (d == 99) { vs_wait_quiescent(); return; } if (d > 0) { n_hold_waits++; vs_block_until([d] { return g_finished[(size_t)(d - 1)] != 0; }); } }
 
 static void thread_fn(void* p) {
     int t = (int)(intptr_t)p; int me_id = vs_self();
@@ -79,27 +117,32 @@ static void thread_fn(void* p) {
         case 'B': vs_block_until([t] { return enq_done[t] == enq_submitted[t]; }); break;
         case 'G': { tbb::task_group g; int done = 0; for (int i = 0; i < a; i++) g.run([&done, b, me_id] { vs_work(b); done++; n_tasks_run++; if (vs_self() != me_id) n_other_thread++; }); g.wait(); if (done != a) vs_violation("WAIT-TOO-EARLY", "task_group::wait returned after %d of %d tasks", done, a); break; }
         case 'A': { int ran = 0; A[a]->execute([&ran, b] { vs_work(b); ran++; }); if (ran != 1) vs_violation("WAIT-TOO-EARLY", "execute returned but its functor ran %d times", ran); break; }
-        case 'P': Q[a]->push(b); n_pushed++; break;
-        case 'O': { int v = -1; Q[a]->pop(v); n_popped++; break; }
-        case 'M': { M[a]->lock(); if (holders_m[a]++) vs_violation("MUTEX-EXCLUSION", "two holders of tbb::mutex %d", a); vs_work(b); holders_m[a]--; M[a]->unlock(); break; }
-        case 'X': { RW[a]->lock(); if (writers_rw[a]++ || readers_rw[a]) vs_violation("MUTEX-EXCLUSION", "writer of rw_mutex %d not alone", a); vs_work(b); writers_rw[a]--; RW[a]->unlock(); break; }
-        case 'R': { RW[a]->lock_shared(); if (writers_rw[a]) vs_violation("MUTEX-EXCLUSION", "reader of rw_mutex %d with a writer", a); readers_rw[a]++; vs_work(b); readers_rw[a]--; RW[a]->unlock_shared(); break; }
+        case 'P': Q[a]->push(QE(b)); n_pushed++; break;
+        case 'F': { bool threw = false; try { Q[a]->push(QE(-12345)); } catch (std::runtime_error&) { threw = true; } if (!threw) vs_violation("EXCEPTION-LOST", "push of an element whose copy throws returned normally"); n_failed_pushes++; break; }
+        case 'O': { QE v(-1); Q[a]->pop(v); n_popped++; break; }
+        case 'M': { M[a]->lock(); if (holders_m[a]++) vs_violation("MUTEX-EXCLUSION", "two holders of tbb::mutex %d", a); vs_work(b); hold_wait(d); holders_m[a]--; M[a]->unlock(); break; }
+        case 'X': { RW[a]->lock(); if (writers_rw[a]++ || readers_rw[a]) vs_violation("MUTEX-EXCLUSION", "writer of rw_mutex %d not alone", a); vs_work(b); hold_wait(d); writers_rw[a]--; RW[a]->unlock(); break; }
+        case 'R': { RW[a]->lock_shared(); if (writers_rw[a]) vs_violation("MUTEX-EXCLUSION", "reader of rw_mutex %d with a writer", a); readers_rw[a]++; vs_work(b); hold_wait(d); readers_rw[a]--; RW[a]->unlock_shared(); break; }
+        case 'D': { n_dep_groups++; bool ran = false; enq_submitted[t]++; A[a]->enqueue([t, &ran] { n_tasks_run++; ran = true; enq_done[t]++; });
+                    tbb::task_group g; int done = 0; for (int i = 0; i < b; i++) g.run([&done, &ran, d] { vs_work(d); vs_block_until([&ran] { return ran; }); done++; n_tasks_run++; });
+                    g.wait(); if (done != b) vs_violation("WAIT-TOO-EARLY", "task_group::wait returned after %d of %d tasks", done, b); break; }
         }
     }
+    g_finished[(size_t)t] = 1;
 }
 static std::string progress() { char b[200]; snprintf(b, sizeof b, "phase=%s tasks_run=%ld pushed=%ld popped=%ld", g_phase, n_tasks_run, n_pushed, n_popped); return b; }
 
 void h_run(Case& c) {
-    int par = 2, fin = 0, nm = 0, nrw = 0; std::vector<std::pair<int, int>> arenas; std::vector<int> caps;
+    int par = 2, fin = 0, nm = 0, nrw = 0, collide = 0; std::vector<std::pair<int, int>> arenas; std::vector<int> caps;
     for (auto& l : c.lines) {
         auto w = split_ws(l);
         if (w[0] == "cfg") {
-            par = (int)kvl(l, "par", 2); fin = (int)kvl(l, "fin", 0); nm = (int)kvl(l, "mutexes", 0); nrw = (int)kvl(l, "rwmutexes", 0);
+            par = (int)kvl(l, "par", 2); fin = (int)kvl(l, "fin", 0); nm = (int)kvl(l, "mutexes", 0); nrw = (int)kvl(l, "rwmutexes", 0); collide = (int)kvl(l, "collide", 0);
             std::string as = kvs(l, "arenas", "1:0"); for (size_t p = 0; p < as.size();) { size_t e = as.find(',', p); std::string it = as.substr(p, e == std::string::npos ? std::string::npos : e - p); int mc = 1, rs = 0; sscanf(it.c_str(), "%d:%d", &mc, &rs); arenas.push_back({ mc, rs }); if (e == std::string::npos) break; p = e + 1; }
             std::string qs = kvs(l, "queues", "-"); for (size_t p = 0; qs != "-" && p < qs.size();) { size_t e = qs.find(',', p); caps.push_back(atoi(qs.substr(p, e == std::string::npos ? std::string::npos : e - p).c_str())); if (e == std::string::npos) break; p = e + 1; }
         } else if (w[0] == "t") { int t = atoi(w[1].c_str()); if ((int)g_ops.size() <= t) g_ops.resize(t + 1); g_ops[t].assign(w.begin() + 2, w.end()); }
     }
-    g_nt = (int)g_ops.size(); enq_submitted.assign(g_nt, 0); enq_done.assign(g_nt, 0);
+    g_nt = (int)g_ops.size(); enq_submitted.assign(g_nt, 0); enq_done.assign(g_nt, 0); g_finished.assign((size_t)g_nt, 0);
     vs_begin(c.sched.c_str());
     vs_on_deadlock([](const char* d) { vs_violation("LOST-WAKEUP", "%s; %s", d, progress().c_str()); });
     vs_on_fixpoint([](const char* d) { vs_violation("LOST-WAKEUP-SPIN", "%s; %s", d, progress().c_str()); });
@@ -108,8 +151,17 @@ void h_run(Case& c) {
         {
             tbb::global_control gc(tbb::global_control::max_allowed_parallelism, (size_t)par);
             for (auto& a : arenas) A.push_back(new tbb::task_arena(a.first, (unsigned)a.second));
-            for (int cap : caps) { auto* q = new tbb::concurrent_bounded_queue<int>; q->set_capacity(cap); Q.push_back(q); }
-            for (int i = 0; i < nm; i++) M.push_back(new tbb::mutex); for (int i = 0; i < nrw; i++) RW.push_back(new tbb::rw_mutex);
+            for (int cap : caps) { auto* q = new tbb::concurrent_bounded_queue<QE>; q->set_capacity(cap); Q.push_back(q); }
+            if (collide) {     // addresses with one common index ((a >> 5) ^ a) % 2048 into the address-waiter table
+                static char pool[1 << 20]; std::vector<void*> slots; uintptr_t want = ~(uintptr_t)0;
+                for (uintptr_t p = ((uintptr_t)pool + 63) & ~(uintptr_t)63; p + 64 < (uintptr_t)pool + sizeof pool && (int)slots.size() < nm + nrw; p += 8) {
+                    uintptr_t idx = ((p >> 5) ^ p) % 2048; if (want == ~(uintptr_t)0) want = idx;
+                    if (idx == want && (slots.empty() || p >= (uintptr_t)slots.back() + 64)) slots.push_back((void*)p);
+                }
+                if ((int)slots.size() < nm + nrw) vs_inconclusive("BAD-CASE", "no colliding addresses found");
+                for (int i = 0; i < nm; i++) M.push_back(new (slots[(size_t)i]) tbb::mutex); for (int i = 0; i < nrw; i++) RW.push_back(new (slots[(size_t)(nm + i)]) tbb::rw_mutex);
+                vs_stat_flag("colliding_lock_addresses");
+            } else { for (int i = 0; i < nm; i++) M.push_back(new tbb::mutex); for (int i = 0; i < nrw; i++) RW.push_back(new tbb::rw_mutex); }
             std::vector<int> ids; for (int t = 1; t < g_nt; t++) ids.push_back(vs_thread_start(thread_fn, (void*)(intptr_t)t));
             thread_fn((void*)(intptr_t)0);
             g_phase = "join"; for (int id : ids) vs_thread_join(id);
@@ -123,6 +175,8 @@ void h_run(Case& c) {
     long fb = vs_futex_blocked_total(), fw = vs_futex_woken_total();
     vs_end();
     if (n_pushed != n_popped) vs_violation("QUEUE-BALANCE", "pushed %ld popped %ld", n_pushed, n_popped);
+    if (n_hold_waits) vs_stat_flag("hold_and_wait"); if (n_failed_pushes) vs_stat_flag("failed_push"); if (n_dep_groups) vs_stat_flag("tasks_blocked_on_enqueued");
+    vs_stat_add("n_hold_waits", n_hold_waits); vs_stat_add("n_failed_pushes", n_failed_pushes); vs_stat_add("n_dep_groups", n_dep_groups);
     vs_stat_add("n_tasks", n_tasks_run); vs_stat_add("n_other_thread", n_other_thread); vs_stat_add("n_futex_blocked", fb); vs_stat_add("n_futex_woken", fw); vs_stat_add("n_queue_ops", n_pushed + n_popped);
     if (n_other_thread) vs_stat_flag("ran_on_other_thread"); if (fb) vs_stat_flag("slept"); if (fw) vs_stat_flag("woken"); if (n_pushed) vs_stat_flag("bounded_queue");
     vs_stat_add("nt", (fb > 0 && fw > 0) ? 1 : 0);
